@@ -24,7 +24,7 @@ impl Property for C12 {
         if tier == "thorough" { 1_000_000 } else { 30_000 }
     }
     fn rule(&self) -> String {
-        "case = (W3 object history: 1-3 final maps of 0..40 keys from an alphabet with non-identifiers, empty string, case variants, non-ASCII, numeric-looking keys; each map built twice along independent PRNG insertion orders and routes: literal with overwritten duplicates, incremental o[k]=v / o.k=v with overwrite and op-assign, spread of a partial object, {defaults.., overrides..} double spread, collected rest of a destructuring, shorthand; half of the maps get a third object differing in exactly one key or value, compared repeatedly in both directions, as fresh temporaries in a loop, and again after being mutated back) x (world: hash keys from the PRNG, heap/env padding, stack limit, malloc tunables and allocator behaviour, what stdout is connected to (file, pipe, socket, terminal, append-mode file), environment kind, locale); oracle: stdout equals the byte-ordered sorted-map model (print, for, nested print, reads), `==` between the two constructions prints true and `==`/`!=` against the one-difference variant print false/true every time, stderr empty, exit 0; since the model does not depend on the world or the order, equality in every case implies cross-world and cross-order identity; non-trivial = map has >= 2 keys; distinct = distinct (program, world)".to_string()
+        "case = (W3 object history: 1-3 final maps of 0..40 keys from an alphabet with non-identifiers, empty string, case variants, non-ASCII, numeric-looking keys; each map built twice along independent PRNG insertion orders and routes: literal with overwritten duplicates, incremental o[k]=v / o.k=v with overwrite and op-assign, spread of a partial object, {defaults.., overrides..} double spread, collected rest of a destructuring, shorthand; half of the maps get a third object differing in exactly one key or value, compared repeatedly in both directions, as fresh temporaries in a loop, and again after being mutated back) x (world: hash keys from the PRNG, heap/env padding, stack limit, malloc tunables and allocator behaviour, what stdout is connected to (file, pipe, socket, terminal, append-mode file), environment kind, locale) x (in a third of the cases a plan of invisible I/O events: short/chunked writes, EINTR, chunked script delivery); oracle: stdout equals the byte-ordered sorted-map model (print, for, nested print, reads), `==` between the two constructions prints true and `==`/`!=` against the one-difference variant print false/true every time, stderr empty, exit 0; since the model does not depend on the world or the order, equality in every case implies cross-world and cross-order identity; non-trivial = map has >= 2 keys; distinct = distinct (program, world)".to_string()
     }
     fn assumptions(&self) -> Vec<String> {
         vec![
@@ -36,7 +36,7 @@ impl Property for C12 {
         vec!["route:literal".into(), "route:incremental-index".into(), "route:incremental-prop".into(), "route:spread".into(), "route:destructure-rest".into(), "route:double-spread".into(), "obs:==-variant".into(), "keys:12+".into(), "obs:for".into(), "obs:print".into()]
     }
 
-    fn gen_case(&self, _ctx: &Ctx, _worker: usize, rng: &mut Rng, _index: u64) -> Case {
+    fn gen_case(&self, ctx: &Ctx, worker: usize, rng: &mut Rng, _index: u64) -> Case {
         // aliased-print observations belong to C19's rendering clause, not to C12
         let p = crate::w3::pick_opts(rng, false);
         let mut world = World::random(rng, WORLD_DIMS);
@@ -47,7 +47,15 @@ impl Property for C12 {
         if world.stdout == 3 {
             world.stdout = 5;
         }
-        Case { label: p.label, program: p.program, aux: p.aux, world, plan: Plan::new() }
+        // a third of the cases under I/O schedules that must be invisible: short and chunked
+        // writes, EINTR, chunked delivery of the script
+        let plan = if rng.chance(1, 3) {
+            let reference = ctx.reference(worker, &p.program);
+            oracle::invisible_plan(rng, &reference)
+        } else {
+            Plan::new()
+        };
+        Case { label: p.label, program: p.program, aux: p.aux, world, plan }
     }
 
     fn check(&self, ctx: &Ctx, worker: usize, case: &Case) -> Outcome {
@@ -59,6 +67,7 @@ impl Property for C12 {
         out.io_events = r.events.len() as u64;
         out.history_shape = r.history_shape();
         out.nontrivial = w3.nkeys >= 2;
+        out.fired = oracle::fired_kinds(&case.plan, &r);
         for rt in &w3.routes {
             out.probes.push(format!("route:{rt}"));
         }
